@@ -1,4 +1,4 @@
 Require Extraction.
 Require Import ExtrOcamlBasic.
-From QV Require Import Core.Bits Core.Pauli Core.Symp Core.Code Core.CodeNd.
-Extraction "c20.ml" validate logicals mkCode to_bsf_list decode_result_ok validate_fast validate_nd.
+From QV Require Import Core.Bits Core.Pauli Core.Symp Core.Code Core.CodeP Core.CodeNd.
+Extraction "c20.ml" validate logicals mkCode to_bsf_list decode_result_ok validate_fast validate_nd code_of.
